@@ -33,7 +33,7 @@ def mc_all(cfg_suffix, fams=FAMS, cfg_override=None):
 
 def run_direct_property(prop, eps, sizes, nrandom, want_default, extra_must=None, mc_suffix=None,
                         cfg_override=None, lifts=1, evidence_extra=None, reject_is_violation=None,
-                        rows_fn=None, fams=FAMS, decl_filter=None, nshards=4, const_twins=False):
+                        rows_fn=None, fams=FAMS, decl_filter=None, nshards=4, const_twins=False, extra_mc=()):
     """Generic driver: model-check the four family slices, replay a seeded sample of the TLC-enumerated
     declarations (every enumerated input and more) into freshly generated code, validate the recorded
     trace against the specification."""
@@ -45,6 +45,12 @@ def run_direct_property(prop, eps, sizes, nrandom, want_default, extra_must=None
     mcs = mc_all(mc_suffix or T, fams=fams, cfg_override=cfg_override)
     stats = {}
     mc_states = mc_trans = 0
+    extra_runs = {}
+    for (mod, cfg) in extra_mc:
+        rx = run_tlc(mod, cfg, "mc_extra_" + mod.lower(), workers=16)
+        mc_states += rx.distinct
+        mc_trans += rx.generated
+        extra_runs[mod] = {"distinct_states": rx.distinct, "states_generated": rx.generated, "depth": rx.depth}
     n_decl_space = {}
     all_decls = []
     samples_out = []
@@ -109,6 +115,8 @@ def run_direct_property(prop, eps, sizes, nrandom, want_default, extra_must=None
         "samples": samples_out,
         "exhaustive": False,
     }
+    if extra_runs:
+        cov["additional_model_checking_runs"] = extra_runs
     if evidence_extra:
         cov.update(evidence_extra)
     ev = {"tier": T, "seed": seed(), "level": "model_checking", "coverage": cov,
